@@ -1053,6 +1053,26 @@ def exhaustive_small(kind: str, tol: str):
             yield cfg, pre + [copy.deepcopy(o) for o in combo]
 
 
+def probe_returned_jacobian(res: Result) -> None:
+    """Out-of-quantifier probe (information only): the caller modifies a *returned Jacobian* array."""
+    cfg = {"kind": "simple", "tol": "0", "inputs": [["a", 1, None]], "outputs": [["y", 1]], "din": ["a"], "dout": ["y"],
+           "sj": False, "A": {"y": [[2]]}, "b": {"y": [1]}, "q": {"y": [1]}, "sparse": [], "hash": "real"}
+    affected = []
+    for kind in ("simple", "mem", "shm", "hdf"):
+        d, _info = make_disc({**cfg, "kind": kind}, kind)
+        x = {"a": np.array([1.0])}
+        j = d.linearize(x, compute_all_jacobians=True)
+        j["y"]["a"][0, 0] = 99.0
+        j2 = d.linearize({"a": np.array([1.0])}, compute_all_jacobians=True)
+        if F(j2["y"]["a"][0, 0]) != 4:
+            affected.append(kind)
+    res.count("probe-returned-jacobian-mutated", 4)
+    res.notes.append(
+        "out-of-scope probe: modifying a returned Jacobian array in place changes the cached Jacobian for: "
+        + (", ".join(affected) or "no cache kind") + " (the Jacobian is cached and handed out by reference; outside the "
+        "property's quantifier, which is about arrays the caller passed in)")
+
+
 def run(ctx) -> Result:
     res = Result(PID)
     res.rule = (
@@ -1086,6 +1106,7 @@ def run(ctx) -> Result:
             batch.append(gen_case(rng))
         check_cases(res, batch, rng, parallel=ctx.thorough)
         done += len(batch)
+    probe_returned_jacobian(res)
     # out-of-scope probe stream (never a violation)
     probe = []
     for _ in range(n // 10):
@@ -1101,7 +1122,6 @@ def run(ctx) -> Result:
                 for i in range(0, len(cases), 2400):
                     check_cases(res, cases[i : i + 2400], rng, parallel=True)
                 res.count(f"exhaustive-{kind}-{tol}", len(cases))
-        res.exhaustive = True
         res.notes.append("exhaustive part: all histories of <= 4 operations over {execute/linearize on 2 arrays, in-place "
                          "modification, clear, reopen} for SimpleCache, MemoryFullCache (shared or not), HDF5Cache, t in {0, 1/8}")
     if _POOL is not None:
